@@ -62,6 +62,28 @@ package acl
 //@ modifies nothing
 //@ loop 1 invariant[all-default-so-far] forall j int :: 0 <= j && j < range1_idx ==> enforce(c.chain[j]) == Default
 
+//@ file policy_authorizer.go
+
+// the rule pair stored in the radix tree under a name (exact rule and prefix rule)
+//@ pure leafAt(tree *radix.Tree, k string) *policyAuthorizerRadixLeaf = as[*policyAuthorizerRadixLeaf](radixGet(tree, k))
+// the stored names already passed by the walk: they are exactly the stored prefixes of the last visited one
+//@ pure walked(tree *radix.Tree, q string, started bool, last string) bool = started && radixHas(tree, q) && prefixOf(q, last)
+
+// Exact-match rule wins; otherwise the prefix rule of the LONGEST stored prefix of the name that has one.
+//@ func getPolicy
+//@ props C08
+//@ requires tree != nil
+//@ requires[leaves-well-typed] forall k string :: radixHas(tree, k) ==> is[*policyAuthorizerRadixLeaf](radixGet(tree, k)) && leafAt(tree, k) != nil
+//@ ensures[exact-rule-wins] radixHas(tree, segment) && leafAt(tree, segment).exact != nil ==> found && policy == leafAt(tree, segment).exact
+//@ ensures[found-iff-some-prefix-rule] !(radixHas(tree, segment) && leafAt(tree, segment).exact != nil) ==> (found <==> exists q string :: radixHas(tree, q) && prefixOf(q, segment) && leafAt(tree, q).prefix != nil)
+//@ ensures[longest-prefix-rule] !(radixHas(tree, segment) && leafAt(tree, segment).exact != nil) && found ==> exists q string :: radixHas(tree, q) && prefixOf(q, segment) && leafAt(tree, q).prefix == policy && policy != nil && forall r string :: radixHas(tree, r) && prefixOf(r, segment) && leafAt(tree, r).prefix != nil ==> prefixOf(r, q)
+//@ modifies nothing
+//@ loop 1 invariant[progress] walk1_started ==> radixHas(tree, walk1_last) && prefixOf(walk1_last, segment)
+//@ loop 1 invariant[stopped-means-exact] walk1_stopped ==> radixHas(tree, segment) && leafAt(tree, segment).exact != nil && found && policy == leafAt(tree, segment).exact
+//@ loop 1 invariant[no-exact-hit-yet] !walk1_stopped ==> !(walk1_started && walk1_last == segment && leafAt(tree, segment).exact != nil)
+//@ loop 1 invariant[found-iff] !walk1_stopped ==> (found <==> exists q string :: walked(tree, q, walk1_started, walk1_last) && leafAt(tree, q).prefix != nil)
+//@ loop 1 invariant[policy-is-longest] !walk1_stopped && found ==> exists q string :: walked(tree, q, walk1_started, walk1_last) && leafAt(tree, q).prefix == policy && policy != nil && forall r string :: walked(tree, r, walk1_started, walk1_last) && leafAt(tree, r).prefix != nil ==> prefixOf(r, q)
+
 // BEGIN-GENERATED merge (generated by /verif/tools/gen_acl_merge_contract.py)
 //@ file policy_merger.go
 //@ pure rank_agentRules(p *policyRulesMergeContext, n string) int = ite(has(p.agentRules, n), rank(p.agentRules[n].Policy), -1)
